@@ -50,7 +50,7 @@ class ChanProp(Prop):
         return r
 
     def bounded(self, tier):
-        known = [f for f in load_known() if f["property"] == self.id and f.get("status") == "known" and f.get("match")]
+        known = [f for f in load_known() if (f["property"] == self.id or self.id in f.get("also", [])) and f.get("status") == "known" and f.get("match")]
         r = run_scen(self.scenarios)
         fails = []
         for res in r.get("results", []):
@@ -117,7 +117,7 @@ def canary_c18(real):
 SPECS = {
     "C02": dict(
         title="each CHANNEL_DATA frame is decoded once and goes to exactly the callback or queue registered for its id, behind everything delivered earlier; other channels are untouched (frame); send emits exactly one frame or nothing",
-        targets=[C + "send", C + "receive", C + "__init__", C + "setcallback", F + "new", F + "_local_receive", MRC, GBR], scenarios=["c02_order", "c10_callback"],
+        targets=[C + "send", C + "receive", C + "__init__", C + "setcallback", F + "new", F + "_local_receive", MRC, GBR], scenarios=["c02_order", "c02_dropped_callback", "c10_callback"],
         heavy={F + "_local_receive": 6, GBR: 8, MRC: 4, C + "setcallback": 4},
         extra=["items sent before the peer holds the channel object are dropped by _local_receive (`pass  # drop data`): the contract states it (unknown id: nothing changes)"],
         canary=(F + "_local_receive", "item-queued-at-the-head", canary_c02)),
@@ -146,7 +146,7 @@ SPECS = {
         canary=(F + "_local_receive", "raising-callback-leaves-the-id-registered", canary_c07)),
     "C10": dict(
         title="setcallback drains the queue in order under the receiver lock (inductive invariant: delivered prefix + remaining queue == old queue), registers only an open channel, re-queues ENDMARKER; _local_receive passes each later item once; the endmarker goes out exactly when a record is popped",
-        targets=[C + "setcallback", F + "_local_receive", F + "_no_longer_opened", F + "_local_close", F + "_finished_receiving", C + "receive"], scenarios=["c10_callback"],
+        targets=[C + "setcallback", F + "_local_receive", F + "_no_longer_opened", F + "_local_close", F + "_finished_receiving", C + "receive"], scenarios=["c10_callback", "c10_dropped_endmarker"],
         heavy={C + "setcallback": 6, F + "_local_receive": 6, F + "_finished_receiving": 4},
         extra=["MultiChannel.make_receive_queue is not under contract yet (native scenario only)", "setcallback racing with a receive() that sits between get and re-put of ENDMARKER"],
         canary=(C + "setcallback", "receive-still-possible-after-setcallback", canary_c10)),
